@@ -164,3 +164,16 @@ package schema
 //@   ensures iff(result == nil, ite(len(p) == 0, ctx_allows(ctx),
 //@           sch_accepts1(old(n.node.children[n.keys[0]]), ctx_allows(ctx), old(p[0])) &&
 //@           (len(p) == 1 || (old(inmap(n.node.children, p[1])) && accTail(old(n.node.children[p[1]]), ctx, p, 2)))))
+
+// decimal64: accepted only if the lexical/64-bit check passes and the value lies in one of the ranges
+// (the type's own ranges, or the full range of its fraction-digits when it has none).
+//@ func validateDecimal64String
+//@   assumed
+//@   ensures iff(result == nil, dec64_ok(s, fractionDigitsAllowed))
+//@ func (*decimal64).Validate
+//@   requires d != nil && forall(k, 0, len(d.rbs), d.rbs[k].Start == d.rbs[k].Start && d.rbs[k].End == d.rbs[k].End)
+//@   ensures implies(result == nil, dec64_ok(s, d.fd))
+//@   ensures implies(result == nil && len(d.rbs) > 0, exists(k, 0, len(d.rbs), d.rbs[k].Start <= parse_float(s) && parse_float(s) <= d.rbs[k].End))
+//@   ensures implies(result == nil && len(d.rbs) == 0 && 1 <= d.fd && d.fd <= 18, fdtab[d.fd].Start <= parse_float(s) && parse_float(s) <= fdtab[d.fd].End)
+//@   loop 0 invariant forall(k, 0, loopidx+1, !(d.rbs[k].Start <= parse_float(s) && parse_float(s) <= d.rbs[k].End))
+//@   loop 0 invariant iff(loopidx >= 0, err != nil)
